@@ -326,7 +326,22 @@ def _get_single_args(*args):
     return res
 
 
-_re_condition = re.compile('(?<!~)[?*]')
+_re_condition = re.compile(r'~([~?*])|([?*])')  # An escaped char or a wildcard.
+
+
+def _wildcards(text):
+    # The regex of an Excel pattern (None without wildcards), and its text
+    # without the escapes (i.e., `~~`, `~?`, and `~*`).
+    parts, i, wild = [], 0, False
+    for m in _re_condition.finditer(text):
+        esc, w = m.groups()
+        parts.append(re.escape(text[i:m.start()]))
+        parts.append(re.escape(esc) if esc else {'?': '.', '*': '.*'}[w])
+        i, wild = m.end(), wild or bool(w)
+    parts.append(re.escape(text[i:]))
+    return ''.join(parts) if wild else None, _re_condition.sub(
+        lambda m: m.group(1) or m.group(2), text
+    )
 
 
 def _accumulate(accumulator, values):
@@ -351,13 +366,13 @@ def _xfilter(accumulator, test_range, condition, operating_range):
                 operator, condition = k, condition[len(k):]
                 break
         if operator in ('=', '<>'):
-            it = _re_condition.findall(condition)
-            if it and condition.upper() not in Error.errors:  # Not `#NAME?`.
-                _ = lambda v: re.escape(v.replace('~?', '?').replace('~*', '*'))
-                match = re.compile(''.join(sum(zip(
-                    map(_, _re_condition.split(condition)),
-                    tuple({'?': '.', '*': '.*'}[v] for v in it) + ('',)
-                ), ())), re.IGNORECASE | re.DOTALL).fullmatch
+            pattern, text = _wildcards(condition)
+            if condition.upper() in Error.errors:  # `#NAME?` is not a pattern.
+                pass
+            elif pattern is not None:
+                match = re.compile(
+                    pattern, re.IGNORECASE | re.DOTALL
+                ).fullmatch
                 eq = operator == '='
                 f = lambda v: isinstance(v, str) and not isinstance(
                     v, XlError
@@ -368,8 +383,8 @@ def _xfilter(accumulator, test_range, condition, operating_range):
                     return _accumulate(accumulator, operating_range[b])
                 except FoundError as ex:
                     return ex.err
-            elif any(v in condition for v in ('~?', '~*')):
-                condition = condition.replace('~?', '?').replace('~*', '*')
+            else:
+                condition = text
         from ..tokens.operand import Number
         from ..errors import TokenError
         for token in (Number, Error):
